@@ -136,7 +136,7 @@ def gen_apply(rng, used, cur, npool, vtype):
         return ["qa", "s" if vtype in ("str", "widestr") and rng.random() < 0.6 else "l", "eq", q[1]]
     if q[0] == "any":
         return ["qa", "do", "any"] + q[1:]
-    return ["qa", rng.choice(["l", "t", "d", "da"]), "all"] + q[1:]
+    return ["qa", rng.choice(["l", "t", "i", "d", "da"]), "all"] + q[1:]
 
 
 def gen_queries(rng, used, cur, npool, vtype, cmds, k):
@@ -394,7 +394,10 @@ class KeywordImpl(object):
     def query(self, via_object, q):
         idx = self.idx
         op = q[0]
-        arg = self.kw(q[1]) if op in ("eq", "noteq") else [self.kw(c) for c in q[1:]]
+        # "an iterable of keywords": list, tuple, set, frozenset, dict keys view and the one-shot kinds (generator,
+        # iterator, map), decided by a hash of the command (props/c01.py): the model sees the members
+        arg = self.kw(q[1]) if op in ("eq", "noteq") else \
+            c01.as_iterable(c01.shape_of([via_object] + list(q)), [self.kw(c) for c in q[1:]])
         if via_object:
             rs = getattr(idx, op)(arg).execute(optimize=self.opt)
             ids = list(rs.ids)
@@ -413,12 +416,15 @@ class KeywordImpl(object):
             return self.idx.apply(ks)
         if form == "t":
             return self.idx.apply(tuple(ks))
+        it = c01.as_iterable(c01.shape_of([form, kind] + list(args)), ks)
+        if form == "i":
+            return self.idx.apply(it)
         if form == "d":
-            return self.idx.apply({"query": ks})
+            return self.idx.apply({"query": it})
         if form == "da":
-            return self.idx.apply({"query": ks, "operator": "and"})
+            return self.idx.apply({"query": it, "operator": "and"})
         if form == "do":
-            return self.idx.apply({"query": ks, "operator": "or"})
+            return self.idx.apply({"query": it, "operator": "or"})
         raise ValueError(form)
 
     def obs(self):
@@ -561,6 +567,8 @@ def features(case, outs):
     for c, o in zip(case["cmds"], outs):
         if c[0] == "qa":
             f.append("apply:%s:%s:%s" % (c[1], c[2], "empty" if o == "{}" else "nonempty" if o.startswith("{") else o))
+            if c[1] in ("i", "d", "da", "do"):
+                f.append("apply-arg:" + c01.shape_of(list(c[1:])))
         elif c[0] == "obs":
             f.append("obs-twice" if prev_cmd == ["obs"] else "obs")
         prev_cmd = c
@@ -569,6 +577,8 @@ def features(case, outs):
                                                                    "dup" if len(set(c[2:])) < len(c) - 2 else "")
             f.append("%s:%s%s:%s" % (c[0], c[1], shape,
                                      "empty" if o == "{}" else "nonempty" if o.startswith("{") else o))
+            if c[1] not in ("eq", "noteq"):
+                f.append("query-arg:%s:%s" % (c[1], c01.shape_of([c[0] == "qx"] + list(c[1:]))))
         elif c[0] in ("index", "reindex"):
             prev = cur.get(c[1], "unknown")
             if c[2:] == ["none"]:
